@@ -9,7 +9,7 @@ specification's own `Norm` (".", "..", absolute): only lookups resolving to an e
 root may be answered.
 
 spec -> code: MC_C17  - TLC enumerates every tree of <= MaxFiles files over (5 dirs x 35 names) under the
-                        18 catalogue configurations, checks the theorems (DefaultsHideBackend, ForbidWins,
+                        17 catalogue configurations, checks the theorems (DefaultsHideBackend, ForbidWins,
                         EmptyAllowedHidesAll, NoEscape, ...) and exports every state; each is materialised
                         under workdir() and observed through finder.list, finder.find (canonical path,
                         "./", "x/../", absolute, "../r0/", base name, traversal / prefix-trick escapes)
@@ -76,7 +76,7 @@ REGEXES = {
     "py_anycase": re.compile(r"(?i)\.py\Z"),
     "no_ext": re.compile(r"(^|/)[^./]+\Z"),
 }
-N_NAMES, N_DIRS, N_CFGS, N_PATS = 35, 5, 18, 21
+N_NAMES, N_DIRS, N_CFGS, N_PATS = 35, 5, 17, 21
 OPCHARS = set("+*?()[]{}|^$\\")
 
 
